@@ -1492,7 +1492,7 @@ Definition v2_elem (e : celem) : Prop :=
   | KQuote => canonical (ce_message e) /\ canonical (ce_signature e) /\
               canonical (ce_extra1 e) /\ ce_extra2 e = []
   | KAttKey => canonical (ce_message e) /\ canonical (ce_signature e) /\
-               canonical (ce_extra1 e) /\ canonical (ce_extra2 e)
+               canonical (ce_extra1 e) /\ (canonical (ce_extra2 e) \/ ce_extra2 e = [])
   | KX509 => (exists x, b64_norm x = Some (ce_message e)) /\ ce_signature e = [] /\
              ce_extra1 e = [] /\ ce_extra2 e = []
   end.
@@ -1500,6 +1500,24 @@ Definition v2_elem (e : celem) : Prop :=
 Lemma nonempty_hex_json_canon j x :
   nonempty_hex_json j = Some x -> canonical (canon_hex x).
 Proof. intro H. apply nonempty_hex_json_some in H. exists x. split; [tauto|reflexivity]. Qed.
+
+(* auth_data: canonical hex, or empty *)
+Lemma hex_or_empty_json_canon j x :
+  hex_or_empty_json j = Some x -> canonical (canon_hex x) \/ canon_hex x = [].
+Proof.
+  unfold hex_or_empty_json. destruct j as [[| | | |y| |]|]; try discriminate.
+  destruct y as [|c y]; [intro H; inversion H; right; reflexivity|].
+  destruct (is_nonempty_hex_string (c :: y)) eqn:E; [|discriminate].
+  intro H. inversion H; subst. left. exists (c :: y). split; [exact E|reflexivity].
+Qed.
+
+Lemma hex_or_empty_json_fix x :
+  canonical x \/ x = [] -> hex_or_empty_json (Some (JStr x)) = Some x /\ canon_hex x = x.
+Proof.
+  intros [H| ->]; [|split; reflexivity].
+  apply canonical_fix in H. destruct H as (H1 & H2 & _). split; [|exact H2].
+  unfold hex_or_empty_json. destruct x; [reflexivity|]. rewrite H1. reflexivity.
+Qed.
 
 Lemma elem_v2_inv it e : elem_v2 b64_norm it = LOk e -> v2_elem e.
 Proof.
@@ -1518,11 +1536,14 @@ Proof.
   destruct (str_eqb ty (s "sgx_attestation_key")).
   { destruct (nonempty_hex_json (jget (s "message") m)) as [msg|] eqn:E1; [|discriminate].
     destruct (nonempty_hex_json (jget (s "key") m)) as [k|] eqn:E2; [|discriminate].
-    destruct (nonempty_hex_json (jget (s "auth_data") m)) as [ad|] eqn:E3; [|discriminate].
+    destruct (hex_or_empty_json (jget (s "auth_data") m)) as [ad|] eqn:E3; [|discriminate].
     destruct (nonempty_hex_json (jget (s "signature") m)) as [sg|] eqn:E4; [|discriminate].
     intro H. inversion H; subst. split; [reflexivity|].
     cbn [ce_kind ce_message ce_signature ce_extra1 ce_extra2].
-    repeat split; try (eapply nonempty_hex_json_canon; eassumption). }
+    split; [eapply nonempty_hex_json_canon; eassumption|].
+    split; [eapply nonempty_hex_json_canon; eassumption|].
+    split; [eapply nonempty_hex_json_canon; eassumption|].
+    eapply hex_or_empty_json_canon; eassumption. }
   destruct (jget (s "message") m) as [[| | | |msg| |]|]; try discriminate.
   destruct (b64_norm msg) as [cm|] eqn:Eb; [|discriminate].
   intro H. inversion H; subst. split; [reflexivity|].
@@ -1564,15 +1585,15 @@ Proof.
     change (str_in _ CERT_V2_TYPES) with (str_in (s "sgx_quote") CERT_V2_TYPES).
     rewrite T1. cbn [negb]. rewrite H1, H2, H3, H1', H2', H3'. reflexivity.
   - destruct Hv as (H1 & H2 & H3 & H4). destruct Hs as [(mb & Hmb & Hlen) Hk].
-    apply canonical_fix in H1, H2, H3, H4.
+    apply canonical_fix in H1, H2, H3. apply hex_or_empty_json_fix in H4.
     destruct H1 as (H1 & H1' & b & Hb & Hb'), H2 as (H2 & H2' & _), H3 as (H3 & H3' & _),
-             H4 as (H4 & H4' & _).
+             H4 as (H4 & H4').
     rewrite Hmb, Hk. rewrite Hb in Hmb. inversion Hmb; subst mb.
     replace (Nat.ltb (length b) 384) with false by (symmetry; apply Nat.ltb_ge; lia).
     replace (firstn 384 b) with b by (symmetry; rewrite <- Hlen; apply firstn_all).
     rewrite <- Hb'.
     eexists. split; [reflexivity|]. unfold elem_v2.
-    cbn -[str_in is_nonempty_hex_string canon_hex CERT_V2_TYPES].
+    cbn -[str_in is_nonempty_hex_string canon_hex CERT_V2_TYPES hex_or_empty_json].
     change (str_in _ CERT_V2_TYPES) with (str_in (s "sgx_attestation_key") CERT_V2_TYPES).
     rewrite T2. cbn [negb]. rewrite H1, H2, H3, H4, H1', H2', H3', H4'. reflexivity.
   - destruct Hv as (_ & -> & -> & ->).
